@@ -143,8 +143,8 @@ func (m *chainMachine) tenants() []*cmActor {
 func (m *chainMachine) providers() []*cmActor {
 	return []*cmActor{m.actors[3], m.actors[4], m.actors[1]}
 }
-func (m *chainMachine) auditors() []*cmActor  { return m.actors[6:8] }
-func (m *chainMachine) outsider() *cmActor    { return m.actors[8] }
+func (m *chainMachine) auditors() []*cmActor { return m.actors[6:8] }
+func (m *chainMachine) outsider() *cmActor   { return m.actors[8] }
 
 func (m *chainMachine) label(l string) { m.labels[l] = true }
 func (m *chainMachine) logop(f string, a ...interface{}) {
